@@ -11,6 +11,8 @@ mod segment_intersection;
 mod signed_area;
 pub mod subdivide_segments;
 pub mod sweep_event;
+#[cfg(geo_booleanop_verif)]
+pub mod verif;
 
 pub use helper::{BoundingBox, Float};
 
